@@ -72,3 +72,11 @@ pub fn no_progress(e: &Expr) -> usize {
         no_progress(e)
     }
 }
+
+// R05.6: a template literal read as a constant string without looking at its substitutions
+pub fn tpl_first_quasi(e: &Expr) -> Option<&str> {
+    match e {
+        Expr::Tpl(Tpl { quasis, .. }) => quasis.first().map(|q| &*q.raw),
+        _ => None,
+    }
+}
